@@ -348,3 +348,32 @@ func vHarnessQueryDIDTotal() {
 		vCover("did query error")
 	}
 }
+
+// C11 / C05, read isolation: with one document stored under d1, reading any other valid DID d2 -
+// in particular one that is a proper prefix or an extension of d1 - returns nothing, through the
+// keeper and through the query; d1 itself reads back as a document about d1.
+func vHarnessReadIsolation() {
+	ctx, k := vEnvDid()
+	d1, d2 := vNondetString("did1", 60), vNondetString("did2", 60)
+	vAssume(types.ValidateDID(d1))
+	vAssume(types.ValidateDID(d2))
+	vAssume(d1 != d2)
+	id := d1 + "#key1"
+	m := &types.VerificationMethod{Id: id, Type: types.ES256K_2019, Controller: d1, PublicKeyBase58: vNondetString("key", 48)}
+	doc := &types.DIDDocument{Id: d1, Contexts: &types.JSONStringOrStrings{types.ContextDIDV1}, VerificationMethods: []*types.VerificationMethod{m},
+		Authentications: []types.VerificationRelationship{types.NewVerificationRelationship(id)}}
+	k.SetDIDDocument(ctx, d1, types.NewDIDDocumentWithSeq(doc, vNondetU64("seq")))
+	if vHasPrefixS(d1, d2) {
+		vCover("the DID read is a proper prefix of the stored one")
+	}
+	if vHasPrefixS(d2, d1) {
+		vCover("the DID read extends the stored one")
+	}
+	got := k.GetDIDDocument(ctx, d2)
+	vCheck(got.Empty(), "C11: reading a DID under which nothing was stored returns nothing, never the document of another identifier")
+	_, qerr := k.DID(sdk.WrapSDKContext(ctx), &types.QueryDIDRequest{DidBase64: vB64(d2)})
+	vCheck(qerr != nil, "C11: the query for a DID under which nothing was stored reports not found")
+	g1 := k.GetDIDDocument(ctx, d1)
+	vCheck(g1.Document != nil && g1.Document.Id == d1, "C11: the stored DID reads back as a document about itself")
+	vCover("read isolation evaluated")
+}
